@@ -39,7 +39,7 @@ CHECKS += [
     {
         "property_id": "C08", "engine": "crosshair", "category": "model_checking",
         "technique": "CrossHair symbolic execution (z3) of the real Circuit API with symbolic sizes, modes, herald positions, flags and (in)valid value indices",
-        "text": "20 conditions (quick) confirmed over all paths within the pre: bounds: adding a circuit (4 argument kinds, parents with/without an earlier heralded sub-circuit, any placement, both group flags, once or twice) leaves the argument's observable state unchanged; later edits of an added circuit leave the parent unchanged; copies are independent both ways; a + b keeps operands; each construction method (bs, ps, loss, barrier, mode_swaps, herald, add) that raises leaves the circuit exactly as it was.",
+        "text": "26 conditions (quick) confirmed over all paths within the pre: bounds: adding a circuit (4 argument kinds, parents with/without an earlier heralded sub-circuit, any placement, both group flags, once or twice) leaves the argument's observable state unchanged; later edits of an added circuit leave the parent unchanged; copies are independent both ways; a + b keeps operands; Simulator, Sampler (distribution and all sampling calls), QuickSampler, Analyzer and Reck().map (default and noisy error model) leave the circuit and the input state unchanged (structure chosen by the solver, consumer run concretely); each construction method (bs, ps, loss, barrier, mode_swaps, herald, add) that raises leaves the circuit exactly as it was.",
         "design_ref": "DESIGN.md section 4 C08", "note": XH_NOTE,
     },
 ]
